@@ -1038,12 +1038,17 @@ fn verif_c19_faults() {
         // records every other shard must hold if it claims success
         let mut need: Vec<BTreeSet<u64>> = vec![BTreeSet::new(); case.shards];
         let mut may: Vec<BTreeSet<u64>> = vec![BTreeSet::new(); case.shards];
+        let mut beyond: Vec<BTreeSet<u64>> = vec![BTreeSet::new(); case.shards];
         for o in 0..case.shards {
             for (p, id) in case.ids(o).iter().enumerate() {
                 let t = case.sel.target(*id, p as u32, case.shards) as usize;
                 may[t].insert(*id);
-                if p < consumed(o) {
-                    need[t].insert(*id);
+                // The fault is confined to one helper: the other two hold the whole input, so a shard of the
+                // faulted helper that reports Ok with fewer records than selected for it is misaligned with its
+                // peers on the other helpers. Records the failed stream never yielded count as dropped too.
+                need[t].insert(*id);
+                if p >= consumed(o) {
+                    beyond[t].insert(*id);
                 }
             }
         }
@@ -1057,11 +1062,12 @@ fn verif_c19_faults() {
                     let missing = need[s].difference(&got).count();
                     let foreign = got.difference(&may[s]).count();
                     let dup = recs.len() - got.len();
+                    let never_sent = beyond[s].difference(&got).count();
                     if missing + foreign + dup > 0 {
                         rec.violation(
                             "after a failure elsewhere a shard returned Ok although records selected for it are missing (or foreign / duplicated)",
                             sig(&case, "ok_with_records_dropped", "paused"),
-                            json!({"case": idx, "reshard_case": case.to_json(), "shard": s, "missing": missing, "foreign": foreign, "duplicates": dup, "run": run_json.clone()}),
+                            json!({"case": idx, "reshard_case": case.to_json(), "shard": s, "missing": missing, "missing_never_read_by_failed_shard": never_sent, "foreign": foreign, "duplicates": dup, "run": run_json.clone()}),
                         );
                     } else {
                         rec.count("other_shard_ok_and_complete");
